@@ -332,6 +332,7 @@ func (s *clientSocket) sendConnectPacket(authData any) {
 }
 
 func (s *clientSocket) onPacket(header *parser.PacketHeader, eventName string, decode parser.Decode) {
+	vhook.Yield("csocket.onPacket.start", s)
 	switch header.Type {
 	case parser.PacketTypeConnect:
 		s.onConnect(header, decode)
